@@ -57,7 +57,7 @@ func main() {
 		os.Exit(soloMain(*pool, *index, *count))
 	case "conc":
 		os.Exit(concMain(concArgs{config: *config, seed: *seed, worker: *worker, pool: *pool, ref: *refFile, from: *from, to: *to,
-			dur: *dur, caseFile: *caseFile, trace: *trace, family: *family, dumpep: *dumpep, firstuse: *firstuse}))
+			dur: *dur, caseFile: *caseFile, trace: *trace, family: *family, dumpep: *dumpep, firstuse: *firstuse, eidx: *eidx, en: *en}))
 	case "canary":
 		os.Exit(canaryMain(*prop == "locked"))
 	default:
